@@ -46,7 +46,8 @@ def opOf (op : String) (ts : List String) : Option (Nat × AllocTree) :=
   | "cnv_prepare_self" => some (cnvPrepSelfTmp be n (g "size") (g "asize"), leaf (cnvPrepSelfTmp be n (g "size") (g "asize")))
   | "cnv_apply_dft" => some (cnvApplyTmp be (g "size") (g "asize") (g "bsize"), leaf (cnvApplyTmp be (g "size") (g "asize") (g "bsize")))
   | "cnv_by_const_apply" => some (cnvByConstTmp be (g "size") (g "asize") (g "bsize"), leaf (cnvByConstTmp be (g "size") (g "asize") (g "bsize")))
-  | "cnv_pairwise_apply_dft" => some (cnvPairwiseTmp be (g "size") (g "asize") (g "bsize"), leaf (cnvPairwiseTmp be (g "size") (g "asize") (g "bsize")))
+  -- the hal delegate of the pairwise query swaps its first two arguments: the value passed as `cnv_offset` is used as `res_size`
+  | "cnv_pairwise_apply_dft" => some (cnvPairwiseTmp be (g "off") (g "asize") (g "bsize"), leaf (cnvPairwiseTmp be (g "off") (g "asize") (g "bsize")))
   -- core
   | "lwe_encrypt_sk" => some (tbLwe n (g "size"), treeLweEncryptSk n (g "size"))
   | "lwe_decrypt" => some (tbLwe n (g "size"), treeLweDecrypt n (g "size"))
@@ -66,6 +67,10 @@ def opOf (op : String) (ts : List String) : Option (Nat × AllocTree) :=
   | "glwe_external_product_assign" => some (tbGlweExternalProduct be n res res k, treeGlweExternalProduct be n res res k)
   | "glwe_automorphism" => some (tbGlweAutomorphism be n res a k, treeGlweAutomorphism be n res a k)
   | "glwe_automorphism_assign" => some (tbGlweAutomorphism be n res res k, treeGlweAutomorphism be n res res k)
+  | "glwe_automorphism_sub" => some (tbGlweAutomorphism be n res a k, treeGlweAutomorphismAdd be n res a k)
+  | "glwe_automorphism_sub_negate" => some (tbGlweAutomorphism be n res a k, treeGlweAutomorphismAdd be n res a k)
+  | "glwe_automorphism_sub_assign" => some (tbGlweAutomorphism be n res res k, treeGlweAutomorphismAdd be n res res k)
+  | "glwe_automorphism_sub_negate_assign" => some (tbGlweAutomorphism be n res res k, treeGlweAutomorphismAdd be n res res k)
   | "glwe_automorphism_add" => some (tbGlweAutomorphism be n res a k, treeGlweAutomorphismAdd be n res a k)
   | "glwe_automorphism_add_assign" => some (tbGlweAutomorphism be n res res k, treeGlweAutomorphismAdd be n res res k)
   | "glwe_trace" => some (tbGlweTrace be n res a k, treeGlweTrace be n (g "iters") res a k)
